@@ -253,5 +253,31 @@ def loop_nest_probes():
     return out
 
 
+def construct_probes():
+    """further statement / expression forms: conditional expressions, elif chains, computed stack
+    addresses, effect ordering around sleep / yield, unary minus, comparison values, named batch writes"""
+    out = []
+    pre = HDR + "a = d0.Setting\nb = d1.Setting\nc = d2.Setting\n"
+    out.append(("ifexp:basic", pre + "db.Setting = a if b > 1 else c\ndb.Mode = (a + 1) if b else (c * 2)\n"))
+    out.append(("ifexp:nested", pre + "db.Setting = 1 if a > 2 else (2 if b > 2 else 3)\n"))
+    out.append(("ifexp:in_expr", pre + "db.Setting = 10 + (a if b > c else c) * 2\n"))
+    out.append(("ifexp:as_arg", HDR + "def f(x):\n    db.Mode = x\n\nf(1 if d0.Setting > 0 else 2)\nf(d1.Setting if d2.Setting else 7)\n"))
+    out.append(("ifexp:reads", pre + "x = d3.Setting if a > 0 else d4.Setting\ndb.Setting = x\n"))
+    out.append(("elif:chain4", pre + "if a > 10:\n    db.Setting = 1\nelif a > 5:\n    db.Setting = 2\nelif b > 5:\n    db.Setting = 3\nelif c:\n    db.Setting = 4\nelse:\n    db.Setting = 5\ndb.Mode = 9\n"))
+    out.append(("elif:no_else", pre + "if a > 10:\n    db.Setting = 1\nelif a > 5:\n    db.Setting = 2\nelif b > 5:\n    db.Setting = 3\ndb.Mode = 9\n"))
+    out.append(("elif:nested", pre + "if a > 1:\n    if b > 1:\n        db.Setting = 1\n    elif c > 1:\n        db.Setting = 2\n    db.On = 1\nelif b > 1:\n    db.Setting = 3\nelse:\n    if c > 1:\n        db.Setting = 4\ndb.Mode = 9\n"))
+    out.append(("stack:computed", pre + "stack[100 + 1] = a\nstack[a + 100] = b\ndb.Setting = stack[100 + a] + stack[c]\n"))
+    out.append(("order:sleep_yield", pre + "db.Setting = 1\nsleep(a)\ndb.Setting = 2\nyield_()\ndb.Mode = b\nsleep(0.5)\nyield_()\ndb.On = 1\n"))
+    out.append(("unary:minus", pre + "db.Setting = -a\ndb.Mode = -a * -b\ndb.On = -(-a)\nx = -3\ndb.Open = x - a\ndb.Lock = a - -2\n"))
+    out.append(("cmp:value", pre + "db.Setting = (a > b) + (b > c)\ndb.Mode = (a == b) * 5\nx = a != b\ndb.On = x\n"))
+    out.append(("batch:named_write", HDR + "n1 = HASH(\"x\")\nGrowLights[n1].On = d0.Setting\nGrowLights[\"y z\"].Lock = 1\nWallHeaters[\"h\"].On = GrowLights[\"y z\"].On.Maximum\n"))
+    out.append(("stmt:pass", pre + "if a:\n    pass\nelse:\n    db.Setting = 1\nfor i in range(2):\n    pass\ndb.Mode = 2\n"))
+    out.append(("global:in_loop", HDR + "count = 0\n\ndef tick():\n    global count\n    count += 1\n    if count > 2:\n        count = 0\n\nfor i in range(4):\n    tick()\n    db.Setting = count\n"))
+    out.append(("return:in_loop_value", HDR + "def first(lim):\n    i = 0\n    while i < 5:\n        if Stack(d0)[i] > lim:\n            return i\n        i += 1\n    return -1\n\ndb.Setting = first(d1.Setting)\ndb.Mode = first(2)\n"))
+    out.append(("math:const_names", pre + "db.Setting = a * pi + tau\n"))
+    return out
+
+
 def all_probes():
-    return comparison_probes() + range_probes() + boolean_probes() + arithmetic_probes() + call_probes() + access_probes() + call_matrix() + lifetime_probes() + constness_probes() + loop_nest_probes()
+    return (comparison_probes() + range_probes() + boolean_probes() + arithmetic_probes() + call_probes() + access_probes() + call_matrix() + lifetime_probes()
+            + constness_probes() + loop_nest_probes() + construct_probes())
